@@ -27,7 +27,7 @@ GRACE, SHUT = 0.4, 0.4
 HORIZON = 5.0
 
 KINDS = ["idle_keepalive", "partial_head", "inflight_short", "pipelined_behind_inflight", "pipelined_second_inflight", "h2_two_inflight", "inflight_long", "stuck_forever", "unread_response", "unread_response_halfclosed", "h2_open_stream",
-         "h2_idle", "websocket_open"]
+         "h2_idle", "h2_fresh", "websocket_open"]
 
 
 def gen(rng, tier):
@@ -259,7 +259,7 @@ def run_one(case, tally):
     }
     if case.get("ls"):
         apps["lifespan"] = apps["lifespan"] + ([["sleep", 0.15]] if case["ls"] == "lingers" else [["yield", 2]])
-    cfg = {"graceful_timeout": GRACE if kind not in ("inflight_short", "pipelined_behind_inflight", "pipelined_second_inflight", "h2_two_inflight", "burst_across_trigger") else 3.0, "shutdown_timeout": SHUT, "keep_alive_timeout": 30.0}
+    cfg = {"graceful_timeout": GRACE if kind not in ("inflight_short", "pipelined_behind_inflight", "pipelined_second_inflight", "h2_two_inflight", "burst_across_trigger", "h2_fresh") else 3.0, "shutdown_timeout": SHUT, "keep_alive_timeout": 30.0}
     if case["trigger"] == "max_requests":
         cfg["max_requests"] = 2
     h = ServeHarness(be, cfg, apps)
@@ -303,11 +303,13 @@ def run_one(case, tally):
                 s.sendall(client_preface(fb, {}) +
                           fb.headers(1, [(b":method", b"GET"), (b":scheme", b"http"), (b":path", b"/short"), (b":authority", b"h")], end_stream=True) +
                           fb.headers(3, [(b":method", b"GET"), (b":scheme", b"http"), (b":path", b"/short2"), (b":authority", b"h")], end_stream=True))
-            elif kind in ("h2_open_stream", "h2_idle"):
+            elif kind in ("h2_open_stream", "h2_idle", "h2_fresh"):
                 fb = FrameBuilder()
                 fbs.append(fb)
                 s.sendall(client_preface(fb, {}))
-                if kind == "h2_open_stream":
+                if kind == "h2_fresh":
+                    pass  # (prior knowledge, preface and SETTINGS sent, no request yet: as idle as a connection can be)
+                elif kind == "h2_open_stream":
                     s.sendall(fb.headers(1, [(b":method", b"GET"), (b":scheme", b"http"), (b":path", b"/stuck"), (b":authority", b"h")], end_stream=True))
                 else:
                     s.sendall(fb.headers(1, [(b":method", b"GET"), (b":scheme", b"http"), (b":path", b"/t%d" % i), (b":authority", b"h")], end_stream=True))
@@ -327,7 +329,7 @@ def run_one(case, tally):
             for s in socks:
                 s.shutdown(socket.SHUT_WR)
             time.sleep(0.2)
-        if kind == "h2_idle":
+        if kind in ("h2_idle", "h2_fresh"):
             for s in socks:
                 s.settimeout(0.5)
                 try:
@@ -335,7 +337,7 @@ def run_one(case, tally):
                 except OSError:
                     pass
         witness = None
-        if kind in ("inflight_short", "inflight_long", "h2_idle", "h2_open_stream") and case["trigger"] == "callable":
+        if kind in ("inflight_short", "inflight_long", "h2_idle", "h2_fresh", "h2_open_stream") and case["trigger"] == "callable":
             # an idle keep-alive connection whose closure tells the client, causally, that the worker has begun its shutdown
             witness = h.connect()
             if witness is not None:
@@ -361,7 +363,13 @@ def run_one(case, tally):
             d, eof = recv_all(witness, timeout=2.0)
             witness.close()
             seen["witness_closed"] = eof
-            if eof and kind in ("h2_idle", "h2_open_stream"):
+            if eof and kind == "h2_fresh":
+                # the witness (an idle HTTP/1.1 connection) has been closed: the idle connections are being closed *now*, three seconds
+                # of grace period are still ahead.  A fresh HTTP/2 connection is idle too: its end has to come with the witness's, not
+                # with the end of the grace period
+                tr.ev("client", "witness-closed")
+                seen["fresh_closed"] = [recv_all(s_, timeout=1.0)[1] for s_ in socks]
+            elif eof and kind in ("h2_idle", "h2_open_stream"):
                 tr.ev("client", "witness-closed")  # only the witness is needed here: from now on the server refuses new streams
             elif eof:
                 tr.ev("client", "witness-closed")
@@ -432,7 +440,7 @@ def run_one(case, tally):
                 if eof:
                     continue
             seen["idle_closed"] = closed
-        if kind in ("h2_idle", "h2_open_stream"):
+        if kind in ("h2_idle", "h2_fresh", "h2_open_stream"):
             got_goaway = []
             for s, fb in zip(socks, fbs):
                 try:
@@ -516,6 +524,12 @@ def run_one(case, tally):
         if not all(seen.get("idle_closed", [False])):
             findings.append({"clause": "idle-closed", "sig": "C15.idle-connection-kept-open/%s" % be, "backend": be,
                              "detail": "idle keep-alive connections after the trigger: closed=%r" % seen.get("idle_closed")})
+    if kind == "h2_fresh" and "fresh_closed" in seen:
+        tally.clause("idle-closed")
+        if not all(seen["fresh_closed"]):
+            findings.append({"clause": "idle-closed", "sig": "C15.idle-connection-kept-open/%s/h2-fresh" % be, "backend": be,
+                             "detail": "HTTP/2 connections that had sent their preface and nothing else: a second after the server had closed an idle HTTP/1.1 "
+                                       "connection (3 s of grace period still ahead) they were still open: closed=%r" % seen["fresh_closed"]})
     if kind in ("inflight_short", "pipelined_behind_inflight", "pipelined_second_inflight", "h2_two_inflight"):
         tally.clause("inflight-delivered")
         if not all(seen.get("short", [False])):
@@ -541,11 +555,11 @@ def run_one(case, tally):
                                            "but no GOAWAY was ever sent"})
             elif not eof:
                 tally.notes["h2-two-inflight-not-closed-within-observation"] += 1
-    if kind in ("h2_idle", "h2_open_stream") and case["trigger"] == "callable" and not seen.get("witness_closed"):
+    if kind in ("h2_idle", "h2_fresh", "h2_open_stream") and case["trigger"] == "callable" and not seen.get("witness_closed"):
         # the closing of the listener precedes, by a few scheduler steps, the moment from which new streams are refused (trio); only the
         # server's closing of an idle connection proves that moment has passed, and it was not observed in time
         tally.inconclusive["witness-connection-not-closed"] += 1
-    elif kind in ("h2_idle", "h2_open_stream"):
+    elif kind in ("h2_idle", "h2_fresh", "h2_open_stream"):
         tally.clause("h2-refused")
         for goaway, rst3, eof, hdr3 in seen.get("h2", []):
             if hdr3:
